@@ -166,6 +166,23 @@ def process_results(check, obs, known):
                 continue
             if st == "lowering-failed":
                 # a compile-time verdict (the compiler's, not the solver's): the kernel line itself is ill-formed
+                hitf = None
+                for f in known:
+                    if f.get("status") != "known":
+                        continue
+                    if f.get("ob_pattern") and not re.search(f["ob_pattern"], ob.name):
+                        continue
+                    pf = preds.get(f["id"])
+                    pt = pf(ob, []) if pf is not None else None
+                    if pt is not None and T.is_const(pt) and pt.attr:
+                        hitf = f
+                        break
+                if hitf is not None:
+                    if hitf["id"] not in [x[0] for x in check.findings_hit]:
+                        print("KNOWN-FINDING: property=%s %s [first seen: %s]" % (check.pid, hitf["what"], ob.name))
+                    check.findings_hit.append((hitf["id"], ob.name, {"lowering_stage": ob.key.get("compile_error", "")[:120]}))
+                    counters["known_lowering"] = counters.get("known_lowering", 0) + 1
+                    continue
                 path = write_replay(check, ob, [], [], "lowering-failed: " + str(ob.key.get("compile_error", "")))
                 check.violations.append((ob.name, path, {"lowering_stage": ob.key.get("compile_error", "")[:120]}))
                 continue
